@@ -152,8 +152,13 @@ static int icmd_pos;		/* icmd[] position */
 /* read s before reading from the terminal */
 void term_push(char *s, int n)
 {
+	/* the pushed keys are read next, before what is still unread */
+	memmove(ibuf, ibuf + ibuf_pos, ibuf_cnt - ibuf_pos);
+	ibuf_cnt -= ibuf_pos;
+	ibuf_pos = 0;
 	n = MIN(n, sizeof(ibuf) - ibuf_cnt);
-	memcpy(ibuf + ibuf_cnt, s, n);
+	memmove(ibuf + n, ibuf, ibuf_cnt);
+	memcpy(ibuf, s, n);
 	ibuf_cnt += n;
 }
 
